@@ -20,6 +20,7 @@ def run(rep, facts):
     rep.rule("R6.5", "record-end buffering: whenever rec_end is set, parse_stream / parse_buffered move every unparsed payload byte into the heap-side pair buffer and report the whole slice consumed; without rec_end they return the unparsed remainder untouched")
 
     # ---- R6.1 ---------------------------------------------------------------------------------------------
+    ALIGN = getattr(facts, "role_paths", {}).get("Config::aligned_bufsize", "Config::aligned_bufsize")     # found by role: may live outside `impl Config`
     for P in (RP, SP):
         b, g, rows = rows_of(facts, P + "::new")
         ok = False
@@ -29,7 +30,7 @@ def run(rep, facts):
             fe = [c for c in r.calls if c[0].endswith("from_elem")]
             for c in fe:
                 n = ir.peel(c[1][1])
-                if cv(c[1][0]) == 0 and n[0] == 'call' and n[1] == "Config::aligned_bufsize" and n[2]:
+                if cv(c[1][0]) == 0 and n[0] == 'call' and n[1] == ALIGN and n[2]:
                     a0 = ir.peel(n[2][0])
                     # `config.aligned_bufsize()` or the same helper as an associated function of `config.buffer_size`
                     if a0[0] == 'param' or (a0[0] == 'field' and a0[2] == 'buffer_size' and ir.peel(a0[1])[0] == 'param'):
@@ -137,7 +138,7 @@ def run(rep, facts):
     # ---- R6.3 ---------------------------------------------------------------------------------------------
     # decided on the values (engine E8), not on the shape of the expression: on every return path of aligned_bufsize
     import regions as R
-    b = facts.body("Config::aligned_bufsize")
+    b = facts.body(ALIGN)
     it = R.Interp(facts)
     ends = it.run(b)
     want_min = SPEC["crate_documented"]["min_buffer"]
@@ -283,6 +284,8 @@ def run_record_end(rep, facts):
     bad = []
     n = 0
     classes = set()
+    rty = b.locals[0].get("ty")
+    as_tail = (rty.get("s", "") if isinstance(rty, dict) else str(rty)).lstrip().startswith("&")
     for r in rows:
         if r.end != 'return' or r.ret is None:
             continue
@@ -303,8 +306,15 @@ def run_record_end(rep, facts):
                 bad.append("unexpected condition %s" % ir.show(pe)[:60])
         ext = [c for c in r.calls if c[0].endswith("Extend>::extend") and self_field(c[1][0], 'buffer')]
         ret = ir.peel(r.ret, casts=False)
-        whole = is_len_of(ret, lambda x: is_param(x, 'data'))
-        part = ret[0] == 'bin' and ret[1] == 'Sub' and is_len_of(ret[2], lambda x: is_param(x, 'data')) and ir.peel(ret[3])[0] == 'call' and ir.peel(ret[3])[1].endswith("::len")
+        if as_tail:
+            # the result is the unconsumed tail of data (parse_buffered's convention): [] = everything consumed
+            whole = empty_array(ret)
+            part = not whole
+            rem_src = ret
+        else:
+            whole = is_len_of(ret, lambda x: is_param(x, 'data'))
+            part = ret[0] == 'bin' and ret[1] == 'Sub' and is_len_of(ret[2], lambda x: is_param(x, 'data')) and ir.peel(ret[3])[0] == 'call' and ir.peel(ret[3])[1].endswith("::len")
+            rem_src = ir.peel(ir.peel(ret[3])[2][0]) if part and ir.peel(ret[3])[2] else None
         if rec is True and rem_empty is False:
             classes.add('buffered')
             tail = ir.peel(ext[0][1][1]) if ext else None
@@ -313,12 +323,12 @@ def run_record_end(rep, facts):
         elif rec is None and not ext:
             # still inside a buffered pair after parse_buffered
             classes.add('pending-pair')
-            sub = ir.peel(ret[3]) if part else None
-            if not part or not (ir.peel(sub[2][0])[0] == 'call' and ir.peel(sub[2][0])[1] == PI + "::parse_buffered"):
+            if not part or rem_src is None or not (ir.peel(rem_src)[0] == 'call' and ir.peel(rem_src)[1] == PI + "::parse_buffered"):
                 bad.append("pending buffered pair: the consumed amount is not len - remainder returned by parse_buffered")
         else:
             classes.add('plain')
-            if ext or not part:
+            if ext or not part or (as_tail and not any(x[0] == 'call' and x[1].endswith("into_inner") for x in ir.walk(ret))
+                                   and not any(is_param(x, 'data') for x in ir.walk(ret))):
                 bad.append("no record end / nothing left: expected consumed = len - unparsed remainder and no buffering")
     if bad:
         rep.violation("R6.5", "parse_stream/record-end-buffering", "; ".join(sorted(set(bad))), b.loc())
